@@ -69,7 +69,7 @@ def run_impl(text, ops):
         try:
             idx = las.index
             if len(idx) >= 2 and isinstance(idx[0], float) and isinstance(idx[1], float):
-                diffs.append((float(idx[1]).hex(), float(idx[0]).hex(), "%.5f" % (idx[1] - idx[0])))
+                diffs.append((float(idx[1]).hex(), float(idx[0]).hex(), float(idx[1] - idx[0])))
         except Exception:
             pass
 
@@ -142,8 +142,12 @@ def tables(r):
             ftab += [fm, "\x01PI", fm % np.pi]
         except Exception:
             pass
-    for h1, h0, txt in r["diffs"]:
-        ftab += ["%.5f", "\x01D" + h1 + "\x01" + h0, txt]
+    for h1, h0, d in r["diffs"]:
+        for fm in sorted(r["fmts"]):
+            try:
+                ftab += [fm, "\x01D" + h1 + "\x01" + h0, fm % d]
+            except Exception:
+                pass
     return tab, ftab
 
 
